@@ -34,6 +34,7 @@ import itertools
 
 from . import e2_formula as F
 from . import op4_model as M
+from . import c11_conc as K
 from .core import Unsupported
 from .e1_srcmodel import dotted
 from .e2_eval import AutoEvaluator, DictValue, Unknown, is_unknown, need
@@ -270,6 +271,16 @@ def _canon_empty(name, args):
             for i in (0, 1):
                 if descs[i] in (("s", "''"), ("s", "b''")):
                     return F.fn("not", F.Rat(F.Poly.atom(terms[1 - i][0][0][0])))
+    if name == "eq0" and len(args) == 1 and not isinstance(args[0], str):
+        # a truth value compared with 0 / 1
+        for d_, neg in ((args[0], True), (-args[0], True), (args[0] + 1, False), (1 - args[0], False)):
+            if as_atom(d_) is not None and not d_.is_const() and is_truth_value(d_):
+                q = fn_parts(d_)
+                if neg and q is not None and q[0] == "ge0":
+                    return F.fn("ge0", -q[1][0] - 1)
+                if neg and q is not None and q[0] == "not":
+                    return q[1][0]
+                return F.fn("not", d_) if neg else d_
     if name == "ge0" and len(args) == 1 and not isinstance(args[0], str):
         p = fn_parts(args[0] + 1)
         if p is not None and p[0] == "call:len" and len(p[1]) == 1 and not isinstance(p[1][0], str):
@@ -612,6 +623,12 @@ def truth_of(v):
     if p[0] == "not":
         t = truth_of(p[1][0])
         return None if t is None else not t
+    if p[0] == "cmp:In" and len(p[1]) == 2 and not any(isinstance(a, str) for a in p[1]):
+        x, seq = K.conc(p[1][0]), fn_parts(p[1][1])
+        if x is not K.NOT and seq is not None and seq[0] == "tuple":
+            elems = [K.conc(e) if not isinstance(e, str) else K.NOT for e in seq[1]]
+            if not any(e is K.NOT for e in elems):
+                return x in elems
     if p[0] in ("bool:And", "bool:Or"):
         ts = [truth_of(a) for a in p[1]]
         if p[0] == "bool:And":
@@ -894,6 +911,296 @@ def push_phi(name, v, f):
     return f(v)
 
 
+def _plain(v):
+    return v is not None and not is_unknown(v) and not isinstance(v, tuple) and not isinstance(v, DictValue)
+
+
+def index_value(v, k):
+    """element k (a constant) of a value: of a literal sequence, of `tuple(...)`, below the selections of a selected sequence"""
+    if isinstance(v, tuple):
+        return v[k] if -len(v) <= k < len(v) else Unknown("index outside a literal sequence")
+    if not _plain(v):
+        return None
+    p = fn_parts(v)
+    if p is not None and p[0] == "tuple" and not any(isinstance(a, str) for a in p[1]):
+        return p[1][k] if -len(p[1]) <= k < len(p[1]) else Unknown("index outside a literal sequence")
+    if p is not None and p[0] == "rec" and not any(isinstance(a, str) for a in p[1]):
+        return fn_parts(p[1][k])[1][0] if -len(p[1]) <= k < len(p[1]) else Unknown("index outside a record")
+    if p is not None and p[0] == "phi" and len(p[1]) == 3 and not any(isinstance(a, str) for a in p[1]):
+        a, b = index_value(p[1][1], k), index_value(p[1][2], k)
+        if a is None or b is None:
+            return None
+        return phi(p[1][0], a, b)
+    return None
+
+
+def make_record(fields, ordered):
+    """a small value object (SimpleNamespace(a=.., b=..), a namedtuple): rec(kw:a(..), kw:b(..)) - `ordered` when it is also a sequence"""
+    parts = []
+    for k, v in fields:
+        if isinstance(v, tuple):
+            try:
+                v = F.fn("tuple", *[need(x) for x in v])
+            except Unsupported as e:
+                return Unknown(str(e))
+        if not _plain(v):
+            return v if is_unknown(v) else Unknown(f"field {k} of a record")
+        parts.append(F.fn("kw:" + k, v))
+    return F.fn("rec" if ordered else "ns", *parts)
+
+
+def field_value(v, name):
+    """v.name for a record (below the selections of a selected record): -> value or None when v is not a record"""
+    if not _plain(v):
+        return None
+    p = fn_parts(v)
+    if p is None:
+        return None
+    if p[0] in ("rec", "ns"):
+        for a in p[1]:
+            q = fn_parts(a) if not isinstance(a, str) else None
+            if q is not None and q[0] == "kw:" + name:
+                return q[1][0]
+        return Unknown(f"a record has no field {name}")
+    if p[0] == "phi" and len(p[1]) == 3 and not any(isinstance(a, str) for a in p[1]):
+        a, b = field_value(p[1][1], name), field_value(p[1][2], name)
+        if a is None or b is None:
+            return None
+        return phi(p[1][0], a, b)
+    return None
+
+
+def without_none(v):
+    """a value known not to be None: the selections that lead to None are resolved the other way"""
+    if not _plain(v):
+        return v
+    p = fn_parts(v)
+    if p is not None and p[0] == "phi" and len(p[1]) == 3 and not any(isinstance(a, str) for a in p[1]):
+        a, b = without_none(p[1][1]), without_none(p[1][2])
+        if _plain(a) and a.equals(NONE):
+            return b
+        if _plain(b) and b.equals(NONE):
+            return a
+        return phi(p[1][0], a, b)
+    return v
+
+
+def as_sequence(v):
+    """a selection between literal sequences of one length is the sequence of the selections of their elements"""
+    if not _plain(v):
+        return v
+    p = fn_parts(v)
+    if p is not None and p[0] == "tuple" and not any(isinstance(a, str) for a in p[1]):
+        return tuple(p[1])
+    if p is not None and p[0] == "rec" and not any(isinstance(a, str) for a in p[1]):
+        return tuple(fn_parts(a)[1][0] for a in p[1])
+    if p is not None and p[0] == "phi" and len(p[1]) == 3 and not any(isinstance(a, str) for a in p[1]):
+        a, b = as_sequence(p[1][1]), as_sequence(p[1][2])
+        if isinstance(a, tuple) and isinstance(b, tuple) and len(a) == len(b):
+            return tuple(phi(p[1][0], x, y) for x, y in zip(a, b))
+    return v
+
+
+def none_test(v):
+    """`v is None` as a value: decided leaf by leaf below the selections of v; None when nothing is known about a leaf"""
+    if isinstance(v, tuple):
+        return ZERO
+    if not _plain(v):
+        return None
+    if v.equals(NONE):
+        return ONE
+    if v.is_const() or _is_str(v):
+        return ZERO
+    p = fn_parts(v)
+    if p is not None and p[0] in ("tuple", "rec", "ns", "cat", "fmt"):
+        return ZERO
+    if p is not None and p[0] == "phi" and len(p[1]) == 3 and not any(isinstance(a, str) for a in p[1]):
+        a, b = none_test(p[1][1]), none_test(p[1][2])
+        if a is None or b is None:
+            return None
+        return phi(p[1][0], a, b)
+    return None
+
+
+def _first_phi(values):
+    """the condition of the first selection occurring in some values (sequences entered)"""
+    for v in values:
+        if isinstance(v, tuple):
+            c = _first_phi(v)
+            if c is not None:
+                return c
+        elif isinstance(v, DictValue):
+            c = _first_phi(list(v.d.values()))
+            if c is not None:
+                return c
+        elif _plain(v):
+            for d in walk_atoms(v):
+                if d[0] == "fn" and d[1] == "phi":
+                    return _arg(d[2][0])
+    return None
+
+
+def choose(v, c, take):
+    """a value in the case where the condition c holds / does not hold: the selections on c are resolved"""
+    if isinstance(v, tuple):
+        return tuple(choose(x, c, take) for x in v)
+    if isinstance(v, DictValue):
+        return DictValue({k: choose(x, c, take) for k, x in v.d.items()})
+    if not _plain(v):
+        return v
+
+    def pre(d):
+        if d[0] == "fn" and d[1] == "phi" and _arg(d[2][0]).equals(c):
+            return choose(_arg(d[2][1 if take else 2]), c, take)
+        return None
+    return rewrite(v, pre=pre)
+
+
+def split_fold(values, fn, depth=0):
+    """fn(values) -> a value, or None when it cannot compute on them; then, when the values contain selections, computed case by case"""
+    r = fn(values)
+    if r is not None or depth >= 4:
+        return r
+    c = _first_phi(values)
+    if c is None:
+        return None
+    a = split_fold([choose(v, c, True) for v in values], fn, depth + 1)
+    if a is None:
+        return None
+    b = split_fold([choose(v, c, False) for v in values], fn, depth + 1)
+    if b is None:
+        return None
+    return phi(c, a, b)
+
+
+def _numeric_piece(v):
+    """a piece of a text that is a number read from the file / computed from one (it prints as its decimal digits)"""
+    if not _plain(v) or v.is_const():
+        return False
+    if as_atom(v) is None:
+        return True
+    return any(d[0] == "fn" and d[1] in ("dec", "rd", "lv", "fin", "item", "floordiv", "hi16", "lo16", "arr") for d in walk_atoms(v))
+
+
+def canon_format(fmt):
+    """a struct format with a repeat count put in by other means than `%`: text.replace('%d', str(n)), f"{e}{n}{code}" -> fmt(text, n)"""
+    p = fn_parts(fmt)
+    if p is None:
+        return fmt
+    if p[0] == "phi" and len(p[1]) == 3 and not any(isinstance(a, str) for a in p[1]):
+        return phi(p[1][0], canon_format(p[1][1]), canon_format(p[1][2]))
+    if p[0].startswith("call:") and p[0].endswith(".replace") and not any(isinstance(a, str) for a in p[1]):
+        args = p[1]
+        recv = args[0] if p[0] == "call:.replace" else F.sym(p[0][5:-len(".replace")])
+        rest = args[1:] if p[0] == "call:.replace" else args
+        if len(rest) == 2 and K.conc(rest[0]) == "%d":
+            q = fn_parts(rest[1])
+            if q is not None and q[0] == "call:str" and len(q[1]) == 1 and not isinstance(q[1][0], str):
+                return F.fn("fmt", recv, q[1][0])
+    if p[0] == "cat":
+        pieces = []
+
+        def flat(v):
+            q = fn_parts(v)
+            if q is not None and q[0] == "cat" and len(q[1]) == 2 and not any(isinstance(a, str) for a in q[1]):
+                flat(q[1][0])
+                flat(q[1][1])
+            else:
+                pieces.append(v)
+        flat(fmt)
+        nums = [i for i, x in enumerate(pieces) if _numeric_piece(x)]
+        if len(nums) == 1:
+            n = pieces[nums[0]]
+            pieces[nums[0]] = F.sym(repr("%d"))
+            out = pieces[0]
+            for x in pieces[1:]:
+                out = F.fn("cat", out, x)
+            return F.fn("fmt", out, n)
+    return fmt
+
+
+TRUTH_FNS = ("cmp:", "bool:")
+
+
+def is_truth_value(v):
+    """a value that is 0 or 1: a comparison, a negation, a parity, a conjunction / disjunction / selection of those"""
+    if not _plain(v):
+        return False
+    if v.is_const():
+        return v.const_value() in (0, 1)
+    p = fn_parts(v)
+    if p is None:
+        return False
+    if p[0].startswith("cmp:") or p[0] in ("not", "odd", "ge0", "eq0"):
+        return True
+    if p[0] == "lv" and len(p[1]) >= 2 and not isinstance(p[1][1], str) and not p[1][1].is_const():
+        return is_truth_value(p[1][1])          # a loop-carried local that enters the loop as a truth value (checked to stay one where the loop ends)
+    if p[0] in ("bool:And", "bool:Or"):
+        return all(not isinstance(a, str) and is_truth_value(a) for a in p[1])
+    if p[0] == "phi":
+        return all(not isinstance(a, str) and is_truth_value(a) for a in p[1][1:])
+    return False
+
+
+def as_number(v):
+    """a truth value used in arithmetic: 1 where it holds, 0 where it does not - written as a selection so that it is resolved case by case"""
+    if _plain(v) and not v.is_const() and is_truth_value(v) and (fn_parts(v) or ("",))[0] != "phi":
+        return F.fn("phi", v, ONE, ZERO)
+    return v
+
+
+def table_lookup(table, k, node=None):
+    """table[k]: the key is known, or it is a tuple whose unknown components are truth values (the table is then indexed case by case)"""
+    d = table.d
+    key = K.conc(k)
+    if key is not K.NOT:
+        try:
+            if key in d:
+                return d[key]
+        except TypeError:
+            pass
+        return Unknown(f"key {key!r} is not in the literal table" + (f" at line {node.lineno}" if node is not None else ""))
+    if isinstance(k, tuple) and len(k) <= 4:
+        for i, x in enumerate(k):
+            if K.conc(x) is K.NOT:
+                if not is_truth_value(x):
+                    # a value used as a truth value through bool(...) is one: the table then has only 0 / 1 in that position
+                    if not _plain(x) or not all(isinstance(kk, tuple) and len(kk) == len(k) and kk[i] in (0, 1, True, False) for kk in d):
+                        return Unknown("key of the literal table" + (f" at line {node.lineno}" if node is not None else ""))
+                yes = table_lookup(table, k[:i] + (ONE,) + k[i + 1:], node)
+                no = table_lookup(table, k[:i] + (ZERO,) + k[i + 1:], node)
+                return phi(x, yes, no)
+    return Unknown("key of the literal table" + (f" at line {node.lineno}" if node is not None else ""))
+
+
+def compare_values(op, a, b):
+    """a <op> b: computed when both are known, decided leaf by leaf for `is None`, element by element for literal sequences"""
+    r = K.fold_compare(op, a, b)
+    if r is not None:
+        return r
+    if is_unknown(a) or is_unknown(b):
+        return a if is_unknown(a) else b
+    if isinstance(a, DictValue) or isinstance(b, DictValue):
+        return Unknown("comparison of a table")
+    if isinstance(op, (ast.Is, ast.IsNot, ast.Eq, ast.NotEq)):
+        for x, y in ((a, b), (b, a)):
+            if _plain(y) and y.equals(NONE):
+                t = none_test(x)
+                if t is not None and (isinstance(x, tuple) or (fn_parts(x) or ("",))[0] in ("phi", "tuple", "rec", "ns")):
+                    return t if isinstance(op, (ast.Is, ast.Eq)) else (ONE - t if t.is_const() else F.fn("not", t))
+        # a truth value compared with True / False is that value or its negation
+        for x, y in ((a, b), (b, a)):
+            if _plain(x) and _plain(y) and y.is_const() and y.const_value() in (0, 1) and is_truth_value(x) and not x.is_const():
+                same_ = (y.const_value() == 1) == isinstance(op, (ast.Is, ast.Eq))
+                return x if same_ else F.fn("not", x)
+    pack = lambda v: F.fn("tuple", *[need(x) for x in v]) if isinstance(v, tuple) else v   # noqa
+    try:
+        a, b = pack(a), pack(b)
+    except Unsupported as e:
+        return Unknown(str(e))
+    return F.fn("cmp:" + type(op).__name__, need(a), need(b))
+
+
 class CEval(AutoEvaluator):
     """AutoEvaluator whose calls are handled by the walker (each argument is evaluated exactly once: reads have effects)"""
 
@@ -946,6 +1253,75 @@ class CEval(AutoEvaluator):
                 else:
                     self.env[k] = v
 
+    def _subscript(self, node):
+        """X[i]: of a lookup table, of a literal sequence / a known text, of the bytes of a read, of anything else (the atom idx(X, i))"""
+        base = self._ev(node.value)
+        if is_unknown(base):
+            return base
+        # ---- the index
+        if isinstance(node.slice, ast.Slice):
+            sl = []
+            for part in (node.slice.lower, node.slice.upper, node.slice.step):
+                if part is None:
+                    sl.append(None)
+                else:
+                    v = self._ev(part)
+                    if is_unknown(v) or isinstance(v, tuple):
+                        return v if is_unknown(v) else Unknown("slice bound that is a tuple")
+                    sl.append(v)
+            r = K.fold_subscript(base, ("slice",) + tuple(sl))
+            if r is not None:
+                return r
+            if isinstance(base, tuple):
+                bounds = [K.conc(x) if x is not None else None for x in sl]
+                if not any(x is K.NOT for x in bounds):
+                    return base[slice(*bounds)]
+                return Unknown(f"slice of a literal sequence with bounds that are not known (line {node.lineno})")
+            if isinstance(base, DictValue):
+                return Unknown("slice of a table")
+            ix = make_slice(*sl)
+        else:
+            k = self._ev(node.slice)
+            if is_unknown(k):
+                return k
+            if isinstance(base, DictValue):
+                return table_lookup(base, k, node)
+            r = K.fold_subscript(base, k)
+            if r is not None:
+                return r
+            if isinstance(base, tuple) and isinstance(K.conc(k), int) and not isinstance(k, tuple):
+                i = K.conc(k)
+                return base[i] if -len(base) <= i < len(base) else Unknown(f"index outside a literal sequence (line {node.lineno})")
+            known = K.conc(base)
+            if isinstance(base, tuple) or isinstance(known, (str, bytes)):
+                seq = base if isinstance(base, tuple) else K.lift(tuple(known[i:i + 1] for i in range(len(known))))
+                if not isinstance(k, tuple) and len(seq) == 2 and is_truth_value(k):
+                    return phi(k, seq[1], seq[0])         # a pair indexed by a truth value / a parity
+                return Unknown(f"index of a literal sequence that is not known (line {node.lineno})")
+            if isinstance(k, tuple):
+                try:
+                    ix = F.fn("tuple", *[need(x) for x in k])
+                except Unsupported as e:
+                    return Unknown(str(e))
+            else:
+                ix = need(k)
+        base = need(base)
+        if ix.is_const() and ix.const_value().denominator == 1:
+            r = index_value(base, int(ix.const_value()))
+            if r is not None:
+                return r
+        r = sub_read(base, ix)
+        if r is not None:
+            return r
+        if ix.is_const():
+            q = fn_parts(base)
+            if q is not None and q[0] == "dec":
+                self.walker.events.append(("decidx", base, int(ix.const_value()), node))
+        elif is_truth_value(ix) and as_sequence(base) is not base and len(as_sequence(base)) == 2:
+            seq = as_sequence(base)
+            return phi(ix, seq[1], seq[0])
+        return F.fn("idx", base, ix)
+
     def _ev(self, node):
         if isinstance(node, (ast.Tuple, ast.List)) and any(isinstance(e, ast.Starred) for e in node.elts):
             out = []
@@ -979,6 +1355,24 @@ class CEval(AutoEvaluator):
                     r = push_phi(node.attr, base, part)
                     if r is not None:
                         return r
+        if isinstance(node, ast.Attribute) and isinstance(node.ctx, ast.Load) and not isinstance(node.value, ast.Name) or \
+                isinstance(node, ast.Attribute) and isinstance(node.ctx, ast.Load) and isinstance(node.value, ast.Name) and node.value.id in self.env \
+                and node.value.id not in self.buffers and dotted(node) not in self.env:
+            v = super()._ev(node)
+            p = fn_parts(v) if _plain(v) else None
+            if p is not None and p[0] == "attr:" + node.attr and len(p[1]) == 1 and not isinstance(p[1][0], str):
+                r = field_value(p[1][0], node.attr)
+                if r is not None:
+                    return r
+            return v
+        if isinstance(node, ast.DictComp):
+            # {k: v for ...}: the comprehension of the pairs (k, v)
+            pair = ast.copy_location(ast.Tuple(elts=[node.key, node.value], ctx=ast.Load()), node)
+            return self._ev(ast.copy_location(ast.ListComp(elt=pair, generators=node.generators), node))
+        if isinstance(node, (ast.ListComp, ast.GeneratorExp, ast.SetComp)) and (
+                self.walker._effectful(node.elt) or any(self.walker._effectful(c) for g in node.generators for c in g.ifs)
+                or any(self.walker._effectful(g.iter) for g in node.generators[1:])):
+            return self.walker.comp_with_effects(node)
         if isinstance(node, (ast.ListComp, ast.GeneratorExp, ast.SetComp)):
             r = self._concrete_comp(node)
             if r is not None:
@@ -1021,17 +1415,31 @@ class CEval(AutoEvaluator):
                     else:
                         self.env[k] = v
         if isinstance(node, ast.JoinedStr):
-            parts = []
+            parts, spec_parts, plain = [], [], True
             for v in node.values:
                 if isinstance(v, ast.Constant):
                     parts.append(F.sym(repr(v.value)))
-                elif isinstance(v, ast.FormattedValue) and v.conversion == -1 and v.format_spec is None:
+                    spec_parts.append(v.value)
+                elif isinstance(v, ast.FormattedValue):
                     x = self._ev(v.value)
-                    if is_unknown(x) or isinstance(x, tuple):
+                    spec = None
+                    if v.format_spec is not None:
+                        sv = self._ev(v.format_spec)
+                        spec = K.conc(sv)
+                        if not isinstance(spec, str):
+                            spec = K.NOT
+                    if is_unknown(x) or spec is K.NOT:
                         return F.sym("fstr:" + ast.unparse(node))
                     parts.append(x)
+                    spec_parts.append((x, v.conversion, spec))
+                    plain = plain and v.conversion == -1 and v.format_spec is None and not isinstance(x, tuple)
                 else:
                     return F.sym("fstr:" + ast.unparse(node))
+            txt = K.fold_format(spec_parts)
+            if txt is not None:
+                return F.sym(repr(txt))          # every field is known: the text itself
+            if not plain:
+                return F.sym("fstr:" + ast.unparse(node))
             if not parts:
                 return F.sym("''")
             out = parts[0]
@@ -1049,17 +1457,9 @@ class CEval(AutoEvaluator):
                 parts.append(ast.copy_location(ast.Compare(left=left, ops=[op], comparators=[right]), node))
                 left = right
             return self._ev(ast.copy_location(ast.BoolOp(op=ast.And(), values=parts), node))
-        if isinstance(node, ast.Compare) and len(node.ops) == 1 and isinstance(node.comparators[0], (ast.Tuple, ast.List)) \
-                or isinstance(node, ast.Compare) and len(node.ops) == 1 and isinstance(node.left, (ast.Tuple, ast.List)):
+        if isinstance(node, ast.Compare) and len(node.ops) == 1:
             a, b = self._ev(node.left), self._ev(node.comparators[0])
-            pack = lambda v: F.fn("tuple", *[need(x) for x in v]) if isinstance(v, tuple) else v   # noqa
-            try:
-                a, b = pack(a), pack(b)
-            except Unsupported as e:
-                return Unknown(str(e))
-            if is_unknown(a) or is_unknown(b):
-                return a if is_unknown(a) else b
-            return F.fn("cmp:" + type(node.ops[0]).__name__, need(a), need(b))
+            return compare_values(node.ops[0], a, b)
         if isinstance(node, ast.IfExp):
             c = self.decide(node.test)
             if c is True:
@@ -1077,33 +1477,31 @@ class CEval(AutoEvaluator):
             if isinstance(cv, tuple):
                 cv = Unknown("test on a tuple")
             return phi(cv, a, b)
-        if isinstance(node, ast.Subscript) and not isinstance(node.slice, (ast.Slice, ast.Tuple)) and (
-                isinstance(node.value, ast.Name) and isinstance(self.env.get(node.value.id), DictValue)
-                or isinstance(node.value, ast.Dict) and isinstance(self._ev(node.value), DictValue)):
-            # a literal lookup table indexed with a key that is known
-            table = (self.env[node.value.id] if isinstance(node.value, ast.Name) else self._ev(node.value)).d
-            k = self._ev(node.slice)
-            key = None
-            if not is_unknown(k) and not isinstance(k, tuple) and k.is_const() and k.const_value().denominator == 1:
-                key = int(k.const_value())
-            elif not is_unknown(k) and not isinstance(k, tuple) and (sym_name(k) or "")[:1] in "'\"":
-                key = ast.literal_eval(sym_name(k))
-            if key is not None and key in table:
-                return table[key]
-            return Unknown(f"key of the literal table at line {node.lineno}")
         if isinstance(node, ast.Subscript):
-            v = super()._ev(node)
-            if not is_unknown(v) and not isinstance(v, tuple):
-                p = fn_parts(v)
-                if p is not None and p[0] == "idx" and not isinstance(p[1][0], str) and not isinstance(p[1][1], str):
-                    r = sub_read(p[1][0], p[1][1])
-                    if r is not None:
-                        return r
-                if p is not None and p[0] == "idx" and not isinstance(p[1][0], str) and not isinstance(p[1][1], str) and p[1][1].is_const():
-                    q = fn_parts(p[1][0])
-                    if q is not None and q[0] == "dec":
-                        self.walker.events.append(("decidx", p[1][0], int(p[1][1].const_value()), node))
-            return v
+            return self._subscript(node)
+        if isinstance(node, ast.BinOp):
+            a = self._ev(node.left)
+            b = self._ev(node.right)
+            if is_unknown(a) or is_unknown(b):
+                return a if is_unknown(a) else b
+            if isinstance(node.op, (ast.Add, ast.Sub, ast.Mult)):
+                a, b = as_number(a), as_number(b)         # a truth value in arithmetic is 1 or 0
+            r = self.walker._binop(node, a, b, self)
+            if r is not NotImplemented:
+                return r
+            if isinstance(a, (tuple, DictValue)) or isinstance(b, (tuple, DictValue)):
+                return Unknown(f"operator {type(node.op).__name__} on a literal sequence (line {node.lineno})")
+            a, b = need(a), need(b)
+            op = node.op
+            if isinstance(op, ast.Add):
+                return a + b
+            if isinstance(op, ast.Sub):
+                return a - b
+            if isinstance(op, (ast.Mult, ast.MatMult)):
+                return a * b
+            if isinstance(op, ast.Pow) and b.is_const() and b.const_value().denominator == 1 and 0 <= b.const_value() <= 16:
+                return a ** int(b.const_value())
+            return Unknown(f"operator {type(op).__name__}")
         if isinstance(node, ast.NamedExpr):
             v = self._ev(node.value)
             self.walker.assign(node.target, v, node)
@@ -1114,8 +1512,21 @@ class CEval(AutoEvaluator):
             self.walker.local_funcs[key] = _lambda_def(node)
             return F.sym(key)
         if isinstance(node, ast.Dict):
-            if node.keys and all(isinstance(k, ast.Constant) for k in node.keys):
-                return DictValue({k.value: self.ev(v) for k, v in zip(node.keys, node.values)})      # a literal lookup table
+            if node.keys and all(k is not None for k in node.keys):
+                keys = []
+                for k in node.keys:
+                    try:
+                        kv = ast.literal_eval(k)
+                        hash(kv)
+                    except Exception:  # noqa
+                        kv = K.conc(self._ev(k)) if not any(isinstance(x, ast.Call) for x in ast.walk(k)) else K.NOT
+                        try:
+                            hash(kv)
+                        except TypeError:
+                            kv = K.NOT
+                    keys.append(kv)
+                if not any(k is K.NOT for k in keys):
+                    return DictValue({k: self.ev(v) for k, v in zip(keys, node.values)})      # a literal lookup table
             return F.sym("dict:" + ast.unparse(node))
         return super()._ev(node)
 
@@ -1193,8 +1604,27 @@ class Walker:
 
     def _binop(self, node, a, b, ev):
         op = node.op
-        if is_unknown(a) or is_unknown(b) or isinstance(a, tuple) or isinstance(b, tuple):
+        if is_unknown(a) or is_unknown(b):
             return NotImplemented
+        r = K.fold_binop(op, a, b)          # text, bytes, literal sequences whose value is known: the operation itself
+        if r is not None:
+            return r
+        if isinstance(a, tuple) or isinstance(b, tuple):
+            if isinstance(op, ast.Add) and isinstance(a, tuple) and isinstance(b, tuple):
+                return a + b
+            if isinstance(op, ast.Mult) and (K.conc(a) is not K.NOT or K.conc(b) is not K.NOT):
+                n, seq = (K.conc(a), b) if isinstance(b, tuple) else (K.conc(b), a)
+                if isinstance(n, int) and isinstance(seq, tuple) and 0 <= n * len(seq) <= 512:
+                    return seq * n
+            if isinstance(op, ast.Mod) and _is_str(a) and isinstance(b, tuple):
+                try:
+                    return F.fn("fmt", need(a), F.fn("tuple", *[need(x) for x in b]))
+                except Unsupported as e:
+                    return Unknown(str(e))
+            return NotImplemented
+        if isinstance(a, DictValue) or isinstance(b, DictValue):
+            return Unknown("operator on a table")
+
         if isinstance(op, ast.FloorDiv):
             try:
                 a, b = need(a), need(b)
@@ -1317,11 +1747,16 @@ class Walker:
         if isinstance(st, ast.While):
             return self._while_norm(st)
         if isinstance(st, ast.For):
+            gen = self._for_over_generator(st)
+            if gen is not None:
+                return self.run(gen)
             new = self._for_as_while(st)
             if new is not None:
                 r = self.run(new[0])
                 return r if r is not None else self._while_norm(new[1], orig=st)
             return self._for(st)
+        if hasattr(ast, "Match") and isinstance(st, ast.Match):
+            return self.run(self._match_as_ifs(st))
         if isinstance(st, ast.With):
             for it in st.items:
                 v = ev.ev(it.context_expr)
@@ -1366,8 +1801,52 @@ class Walker:
             return None
         raise Stuck(f"statement {type(st).__name__} at line {st.lineno}")
 
+    def comp_with_effects(self, node):
+        """a comprehension whose element (or filter) reads the file is the loop it abbreviates: [f.readline() for _ in range(n)] consumes n lines
+        (its value: those n lines, like islice(f, n)); the value of any other such comprehension is not modelled"""
+        body = [ast.Expr(value=node.elt)]
+        for g in reversed(node.generators):
+            if g.is_async:
+                raise Stuck(f"asynchronous comprehension at line {node.lineno}")
+            for c in reversed(g.ifs):
+                body = [ast.If(test=c, body=body, orelse=[])]
+            body = [ast.For(target=g.target, iter=g.iter, body=body, orelse=[], type_comment=None)]
+        loop = body[0]
+        for x in ast.walk(loop):
+            if not hasattr(x, "lineno"):
+                ast.copy_location(x, node)
+        ast.fix_missing_locations(ast.copy_location(loop, node))
+        value = Unknown(f"the values collected by a comprehension that reads the file (line {node.lineno})")
+        g = node.generators[0]
+        elt = node.elt
+        if len(node.generators) == 1 and not g.ifs and isinstance(elt, ast.Call) and isinstance(elt.func, ast.Attribute) and elt.func.attr == "readline" \
+                and not elt.args and not elt.keywords and not any(isinstance(n, ast.Name) and n.id in {t.id for t in ast.walk(g.target) if isinstance(t, ast.Name)}
+                                                                  for n in ast.walk(elt)):
+            n = self._trip_count(g.iter)
+            recv = self.ev.ev(elt.func.value) if isinstance(elt.func.value, (ast.Name, ast.Attribute)) else None
+            if n is not None and _plain(n) and self.is_file(recv):
+                fr = self.frame
+                value = F.fn("lns", fr.id, fr.off["L"], need(n))
+        keep = {t.id: self.ev.env.get(t.id) for gg in node.generators for t in ast.walk(gg.target) if isinstance(t, ast.Name)}
+        try:
+            r = self.stmt(loop)
+        finally:
+            for k, v in keep.items():          # the loop variable of a comprehension is its own
+                if v is None:
+                    self.ev.env.pop(k, None)
+                else:
+                    self.ev.env[k] = v
+        if r is not None:
+            raise Stuck(f"comprehension at line {node.lineno} leaves its function")
+        return value
+
     def assign(self, target, v, st):
         ev = self.ev
+        if isinstance(target, (ast.Tuple, ast.List)) and _plain(v):
+            v = as_sequence(v)
+            known = K.conc(v) if _plain(v) else K.NOT
+            if isinstance(known, (str, bytes)) and len(known) == len(target.elts) and not any(isinstance(t, ast.Starred) for t in target.elts):
+                v = K.lift(tuple(known[i:i + 1] if isinstance(known, str) else known[i] for i in range(len(known))))       # a text unpacks into its characters
         if isinstance(target, (ast.Tuple, ast.List)) and not isinstance(v, tuple) and not is_unknown(v) and v is not None:
             p = fn_parts(v)
             if p is not None and p[0] == "dec" and not any(isinstance(t, ast.Starred) for t in target.elts):
@@ -1404,7 +1883,16 @@ class Walker:
         cv = ev.ev(st.test)
         if isinstance(cv, tuple):
             cv = F.const(1 if cv else 0)        # a literal sequence is true unless it is empty
-        status, _v = self._branch(cv, lambda: (self.run(st.body), None), lambda: (self.run(st.orelse), None), st)
+        nar = _none_narrowing(st.test)
+
+        def arm(stmts, not_none):
+            def run():
+                if nar is not None and nar[1] == not_none and nar[0] in self.ev.env:
+                    # on this arm the tested local is not None: the selections that would make it None are not taken
+                    self.ev.env[nar[0]] = as_sequence(without_none(self.ev.env[nar[0]]))
+                return self.run(stmts), None
+            return run
+        status, _v = self._branch(cv, arm(st.body, True), arm(st.orelse, False), st)
         return status
 
     def _branch(self, cv, run_a, run_b, st):
@@ -1454,7 +1942,14 @@ class Walker:
         # ---- state
         ev = self.ev
         if stA is not None and stB is not None:
-            ev.env = envA
+            # nothing follows in this statement list; what the locals / attributes hold where the function is left normally is still
+            # asked for (attributes set by a followed set-up method, the format tables): an arm that raises does not get there
+            if stA == "raise" and stB != "raise":
+                ev.env = envB
+            elif stB == "raise" and stA != "raise":
+                ev.env = envA
+            else:
+                ev.env = {k: (envA.get(k) if envA.get(k) is envB.get(k) else phi(cv, envA.get(k), envB.get(k))) for k in set(envA) | set(envB)}
             return (stA if stA == stB else "mixed"), None
         if stA is not None:
             ev.env = envB
@@ -1636,26 +2131,23 @@ class Walker:
                     return True
         return False
 
-    def _hoist_test(self, st):
-        """`while <test that reads / binds>: B`  ==  `while True: <the reads and bindings of the test>; if not <rest of the test>: break; B`"""
-        if st.orelse or not self._effectful(st.test):
-            return None
+    def _lift_test(self, test, st):
+        """the reads and bindings of a test, taken out of it: -> (statements that make them, the rest of the test)"""
         pre = []
-        count = [0]
 
         def lift(node, sure):
             """replace the effectful sub-expressions of a test by the names they are bound to; `sure`: evaluated on every evaluation of the test"""
             if isinstance(node, ast.NamedExpr):
                 if not sure or not isinstance(node.target, ast.Name):
-                    raise Stuck(f"loop test at line {st.lineno} binds a name conditionally")
+                    raise Stuck(f"test at line {st.lineno} binds a name conditionally")
                 val = lift(node.value, sure)
                 pre.append(ast.copy_location(ast.Assign(targets=[ast.Name(id=node.target.id, ctx=ast.Store())], value=val), node))
                 return ast.copy_location(ast.Name(id=node.target.id, ctx=ast.Load()), node)
             if isinstance(node, ast.Call) and self._effectful(node) and not any(self._effectful(a) for a in list(node.args) + [k.value for k in node.keywords]):
                 if not sure:
-                    raise Stuck(f"loop test at line {st.lineno} reads the file conditionally")
-                count[0] += 1
-                nm = f"<test {count[0]}>"
+                    raise Stuck(f"test at line {st.lineno} reads the file conditionally")
+                self._ntest = getattr(self, "_ntest", 0) + 1
+                nm = f"<test {self._ntest}>"
                 pre.append(ast.copy_location(ast.Assign(targets=[ast.Name(id=nm, ctx=ast.Store())], value=node), node))
                 return ast.copy_location(ast.Name(id=nm, ctx=ast.Load()), node)
             if not self._effectful(node):
@@ -1673,11 +2165,40 @@ class Walker:
             elif isinstance(node, ast.Call):
                 new = ast.Call(func=node.func, args=[lift(a, sure) for a in node.args], keywords=node.keywords)
             else:
-                raise Stuck(f"loop test at line {st.lineno} reads the file in a {type(node).__name__}")
+                raise Stuck(f"test at line {st.lineno} reads the file in a {type(node).__name__}")
             return ast.copy_location(new, node)
-        test = lift(st.test, True)
+        return pre, lift(test, True)
+
+    def _hoist_test(self, st):
+        """`while <test that reads / binds>: B`  ==  `while True: <the reads and bindings of the test>; if not <rest of the test>: break; B`"""
+        if st.orelse or not self._effectful(st.test):
+            return None
+        pre, test = self._lift_test(st.test, st)
         stop = ast.If(test=ast.UnaryOp(op=ast.Not(), operand=test), body=[ast.Break()], orelse=[])
         new = ast.While(test=ast.Constant(value=True), body=pre + [stop] + list(st.body), orelse=[])
+        for x in ast.walk(new):
+            if not hasattr(x, "lineno"):
+                ast.copy_location(x, st)
+        ast.copy_location(new, st)
+        return ast.fix_missing_locations(new)
+
+    def _hoist_exit_tests(self, st):
+        """`while True: ...; if <test that reads / binds>: break`: the reads and bindings of an exit test become statements of the body, so
+        that the test of the loop in its normal form is a test on values"""
+        if st.orelse or not (isinstance(st.test, ast.Constant) and bool(st.test.value) is True):
+            return None
+        body, changed = [], False
+        for x in st.body:
+            if isinstance(x, ast.If) and self._effectful(x.test) and any(isinstance(n, (ast.Break, ast.Return, ast.Raise)) for n in _own_level(x)):
+                pre, test = self._lift_test(x.test, x)
+                body.extend(pre)
+                body.append(ast.copy_location(ast.If(test=test, body=x.body, orelse=x.orelse), x))
+                changed = True
+            else:
+                body.append(x)
+        if not changed:
+            return None
+        new = ast.While(test=st.test, body=body, orelse=[])
         for x in ast.walk(new):
             if not hasattr(x, "lineno"):
                 ast.copy_location(x, st)
@@ -1689,6 +2210,12 @@ class Walker:
         hoisted = self._hoist_test(st)
         if hoisted is not None:
             st = hoisted
+        hoisted = self._hoist_exit_tests(st)
+        if hoisted is not None:
+            st = hoisted
+        folded = _fold_continue(list(st.body))
+        if folded is not None and not st.orelse:
+            st = ast.fix_missing_locations(ast.copy_location(ast.While(test=st.test, body=folded or [ast.copy_location(ast.Pass(), st)], orelse=[]), st))
         plan = self._plan_while(st)
         if plan is None:
             return self._while(st, orig=orig)
@@ -1710,6 +2237,153 @@ class Walker:
                 return r
             self._while(loop(cond, s2 + s1), orig=orig)
         return self.run(after)
+
+    def _match_as_ifs(self, st):
+        """`match subject: case P [if g]: B ...` over literal, `|`, capture and wildcard patterns as the if / elif chain it abbreviates"""
+        self._ntmp = getattr(self, "_ntmp", 0) + 1
+        subj = f"<subject {self._ntmp}>"
+        load = lambda: ast.Name(id=subj, ctx=ast.Load())   # noqa
+
+        def test_of(p):
+            """(test expression or None when the pattern always matches, name captured or None)"""
+            if isinstance(p, ast.MatchValue):
+                return ast.Compare(left=load(), ops=[ast.Eq()], comparators=[p.value]), None
+            if isinstance(p, ast.MatchSingleton):
+                return ast.Compare(left=load(), ops=[ast.Is()], comparators=[ast.Constant(value=p.value)]), None
+            if isinstance(p, ast.MatchOr):
+                parts = [test_of(q) for q in p.patterns]
+                if any(nm is not None for _t, nm in parts):
+                    raise Stuck(f"`match` alternative that binds a name at line {st.lineno}")
+                if any(t is None for t, _nm in parts):
+                    return None, None
+                return ast.BoolOp(op=ast.Or(), values=[t for t, _nm in parts]), None
+            if isinstance(p, ast.MatchAs):
+                if p.pattern is None:
+                    return None, p.name
+                t, nm = test_of(p.pattern)
+                if nm is not None:
+                    raise Stuck(f"nested capture in a `match` pattern at line {st.lineno}")
+                return t, p.name
+            raise Stuck(f"`match` pattern {type(p).__name__} at line {st.lineno}")
+
+        def build(cases):
+            if not cases:
+                return []
+            c = cases[0]
+            t, nm = test_of(c.pattern)
+            bind = [ast.Assign(targets=[ast.Name(id=nm, ctx=ast.Store())], value=load())] if nm is not None else []
+            rest = build(cases[1:])
+            if t is None:
+                # the pattern always matches: the name is bound, then the guard decides
+                if c.guard is None:
+                    return bind + list(c.body)
+                return bind + [ast.If(test=c.guard, body=list(c.body), orelse=rest)]
+            if c.guard is None:
+                return [ast.If(test=t, body=bind + list(c.body), orelse=rest)]
+            if nm is not None:
+                raise Stuck(f"`match` case with a refutable pattern, a capture and a guard at line {st.lineno}")
+            return [ast.If(test=ast.BoolOp(op=ast.And(), values=[t, c.guard]), body=list(c.body), orelse=rest)]
+        out = [ast.Assign(targets=[ast.Name(id=subj, ctx=ast.Store())], value=st.subject)] + build(list(st.cases))
+        for s_ in out:
+            for x in ast.walk(s_):
+                if not hasattr(x, "lineno"):
+                    ast.copy_location(x, st)
+            ast.fix_missing_locations(s_)
+        return out
+
+    def _for_over_generator(self, st):
+        """`for x in self.gen(a): B` over a generator function of the class that touches the file: the body of the generator with every
+        `yield v` replaced by `x = v; B` (its locals renamed apart) -> the statements to run, or None"""
+        it_ = st.iter
+        if st.orelse or not isinstance(it_, ast.Call):
+            return None
+        name = dotted(it_.func)
+        f2 = self.table.get(name) if name else None
+        if f2 is None or not self.followable(name, f2) or f2 in self.stack:
+            return None
+        own = [n for s_ in f2.body for n in _own_function_nodes(s_)]
+        yields = [n for n in own if isinstance(n, (ast.Yield, ast.YieldFrom))]
+        if not yields:
+            return None
+        where = f"line {st.lineno}"
+        if any(isinstance(n, (ast.YieldFrom, ast.Return)) for n in own):
+            raise Stuck(f"{name} is a generator with `yield from` / `return`: its body runs interleaved with its caller ({where})")
+        if any(isinstance(n, (ast.Break, ast.Continue, ast.Return)) for s_ in st.body for n in _own_level(s_)):
+            raise Stuck(f"the loop over the generator {name} is left / cut short by its body ({where})")
+        import copy
+        a = f2.args
+        params = [x.arg for x in a.posonlyargs + a.args]
+        if params and params[0] in ("self", "cls"):
+            params = params[1:]
+        if a.vararg or a.kwarg or a.kwonlyargs or any(isinstance(x, ast.Starred) for x in it_.args) or any(k.arg is None for k in it_.keywords) \
+                or len(it_.args) > len(params):
+            raise Stuck(f"call of the generator {name} with a signature that cannot be bound ({where})")
+        self._ngen = getattr(self, "_ngen", 0) + 1
+        tag = f"@gen{self._ngen}"
+        local = set(params)
+        for n in own:
+            if isinstance(n, ast.Name) and isinstance(n.ctx, ast.Store):
+                local.add(n.id)
+
+        class Rename(ast.NodeTransformer):
+            def visit_Name(self, n):
+                return ast.copy_location(ast.Name(id=n.id + tag, ctx=n.ctx), n) if n.id in local else n
+
+            def visit_FunctionDef(self, n):
+                return n
+
+            def visit_Lambda(self, n):
+                return n
+        body = [Rename().visit(copy.deepcopy(s_)) for s_ in f2.body]
+        count = [0]
+        consumer = st.body
+        target = st.target
+
+        def expand(stmts):
+            out = []
+            for s_ in stmts:
+                if isinstance(s_, ast.Expr) and isinstance(s_.value, ast.Yield):
+                    v = s_.value.value if s_.value.value is not None else ast.Constant(value=None)
+                    count[0] += 1
+                    out.append(ast.copy_location(ast.Assign(targets=[copy.deepcopy(target) if count[0] > 1 else target], value=v), s_))
+                    out.extend(copy.deepcopy(consumer) if count[0] > 1 else consumer)
+                    continue
+                if any(isinstance(n, ast.Yield) for n in _own_function_nodes(s_)):
+                    if isinstance(s_, (ast.If, ast.While, ast.For, ast.With, ast.Try)):
+                        s_ = copy.copy(s_)
+                        for fld in ("body", "orelse", "finalbody"):
+                            if getattr(s_, fld, None):
+                                setattr(s_, fld, expand(getattr(s_, fld)))
+                        if isinstance(s_, ast.Try) and any(any(isinstance(n, ast.Yield) for y in h.body for n in _own_function_nodes(y)) for h in s_.handlers):
+                            raise Stuck(f"{name} yields inside an exception handler ({where})")
+                        if isinstance(s_, (ast.While, ast.For)) and any(isinstance(n, ast.Yield) for n in ast.walk(s_.test if isinstance(s_, ast.While) else s_.iter)):
+                            raise Stuck(f"{name} yields inside a loop header ({where})")
+                        out.append(s_)
+                        continue
+                    raise Stuck(f"{name} uses the value of a `yield` ({where})")
+                out.append(s_)
+            return out
+        body = expand(body)
+        if count[0] == 0:
+            raise Stuck(f"{name}: no `yield` statement found ({where})")
+        # bind the parameters (defaults included)
+        pre = []
+        dflt = dict(zip(params[::-1], (a.defaults or [])[::-1]))
+        given = dict(zip(params, it_.args))
+        given.update({k.arg: k.value for k in it_.keywords if k.arg in params})
+        for p_ in params:
+            v = given.get(p_, dflt.get(p_))
+            if v is None:
+                raise Stuck(f"call of the generator {name}: parameter {p_} not bound ({where})")
+            pre.append(ast.Assign(targets=[ast.Name(id=p_ + tag, ctx=ast.Store())], value=v))
+        out = pre + body
+        for s_ in out:
+            for x in ast.walk(s_):
+                if not hasattr(x, "lineno"):
+                    ast.copy_location(x, st)
+            ast.fix_missing_locations(s_)
+        self.events.append(("enter", f2, self.guard, self.depth, st))
+        return out
 
     def _for_as_while(self, st):
         """`for v in itertools.count(a, b)` and `for v in iter(f, sentinel)` as the `while True` loops they abbreviate: -> (statements before, loop)"""
@@ -1783,6 +2457,9 @@ class Walker:
             self.guard = g0
             breaks = self._breaks.pop()
         carry = [(p, ev.env.get(nm)) for nm, p in ph.items() if not is_unknown(p)]
+        for p, v in carry:
+            if is_truth_value(p) and _plain(v) and not is_truth_value(v):
+                raise Stuck(f"a local of the loop at line {st.lineno} holds a truth value on entry and another kind of value later")
         if not always and not is_unknown(test) and status is None and fr.items and fr.items[-1][0] == "if":
             # `while t: ...; if <not t, on the values just computed>: break` - the break only anticipates the loop's own test
             it = fr.items[-1]
@@ -1837,6 +2514,15 @@ class Walker:
         itv = None
         if n is None:
             itv = ev.ev(st.iter)
+            if isinstance(itv, tuple) and len(itv) <= 64 and not st.orelse \
+                    and not any(isinstance(x, (ast.Break, ast.Continue)) for y in st.body for x in _own_level(y)):
+                # a loop over a literal sequence is the sequence of its iterations
+                for x in itv:
+                    self.assign(st.target, x, st)
+                    r = self.run(st.body)
+                    if r is not None:
+                        return r
+                return None
             if isinstance(itv, tuple):
                 try:
                     itv = F.fn("tuple", *[need(x) for x in itv])
@@ -1943,15 +2629,126 @@ class Walker:
         n = sym_name(fv)
         return self.inline(self.table[n], node, self.ev, n)
 
+    def _tmp_call(self, fnode, values, node, kws=None):
+        """a call of the function expression `fnode` on values that are already evaluated"""
+        names = []
+        for v in values:
+            self._ntmp = getattr(self, "_ntmp", 0) + 1
+            nm = f"<arg {self._ntmp}>"
+            self.ev.env[nm] = v
+            names.append(nm)
+        call = ast.Call(func=fnode, args=[ast.Name(id=nm, ctx=ast.Load()) for nm in names], keywords=list(kws or []))
+        for x in ast.walk(call):
+            if not hasattr(x, "lineno"):
+                ast.copy_location(x, node)
+        try:
+            return self.ev.ev(ast.fix_missing_locations(ast.copy_location(call, node)))
+        finally:
+            for nm in names:
+                self.ev.env.pop(nm, None)
+
+    def _object_call(self, node, ev):
+        """attribute access and small functional idioms spelled as calls: getattr / setattr with a name that is known, vars(obj).update(...),
+        functools.partial, map over literal sequences, a lambda called in place -> value, or NotImplemented"""
+        func = node.func
+        name = dotted(func)
+        if isinstance(func, ast.Lambda):
+            if any(isinstance(a, ast.Starred) for a in node.args):
+                return NotImplemented
+            return self.inline(_lambda_def(func), node, ev, "<lambda>", closure=True)
+        if not isinstance(func, (ast.Name, ast.Attribute)):
+            # the callee is itself computed (`partial(f, a)()`, `table[k](x)`): called through the value it evaluates to
+            fv = ev.ev(func)
+            self._ntmp = getattr(self, "_ntmp", 0) + 1
+            nm = f"<fn {self._ntmp}>"
+            ev.env[nm] = fv
+            new = ast.copy_location(ast.Call(func=ast.copy_location(ast.Name(id=nm, ctx=ast.Load()), node), args=node.args, keywords=node.keywords), node)
+            try:
+                return ev.ev(new)
+            finally:
+                ev.env.pop(nm, None)
+        if name in ("getattr", "setattr") and len(node.args) >= 2 and not node.keywords and isinstance(node.args[0], (ast.Name, ast.Attribute)):
+            attr = K.conc(ev.ev(node.args[1]))
+            if isinstance(attr, str) and attr.isidentifier():
+                if name == "getattr" and len(node.args) in (2, 3):
+                    return ev.ev(ast.copy_location(ast.Attribute(value=node.args[0], attr=attr, ctx=ast.Load()), node))
+                if name == "setattr" and len(node.args) == 3:
+                    v = ev.ev(node.args[2])
+                    self.assign(ast.copy_location(ast.Attribute(value=node.args[0], attr=attr, ctx=ast.Store()), node), v, node)
+                    return NONE
+            return NotImplemented
+        if isinstance(func, ast.Attribute) and func.attr == "update" and not any(k.arg is None for k in node.keywords):
+            # vars(obj).update(a=..., b=...) / obj.__dict__.update(...): assignments to the attributes of obj
+            obj = None
+            fv = func.value
+            if isinstance(fv, ast.Call) and dotted(fv.func) == "vars" and len(fv.args) == 1 and isinstance(fv.args[0], (ast.Name, ast.Attribute)):
+                obj = fv.args[0]
+            elif isinstance(fv, ast.Attribute) and fv.attr == "__dict__" and isinstance(fv.value, (ast.Name, ast.Attribute)):
+                obj = fv.value
+            if obj is not None:
+                pairs = []
+                for a in node.args:
+                    d = ev.ev(a)
+                    if not isinstance(d, DictValue) or not all(isinstance(k, str) and k.isidentifier() for k in d.d):
+                        return Unknown(f"attributes set from a table that is not a literal (line {node.lineno})")
+                    pairs.extend(d.d.items())
+                pairs.extend((k.arg, ev.ev(k.value)) for k in node.keywords)
+                for k, v in pairs:
+                    self.assign(ast.copy_location(ast.Attribute(value=obj, attr=k, ctx=ast.Store()), node), v, node)
+                return NONE
+        if name in ("SimpleNamespace", "types.SimpleNamespace") and not node.args and not any(k.arg is None for k in node.keywords):
+            return make_record([(k.arg, ev.ev(k.value)) for k in node.keywords], ordered=False)
+        if name in ("namedtuple", "collections.namedtuple") and len(node.args) == 2 and not any(k.arg in ("rename", "defaults") for k in node.keywords):
+            fields = K.conc(ev.ev(node.args[1]))
+            if isinstance(fields, str):
+                fields = tuple(fields.replace(",", " ").split())
+            if isinstance(fields, tuple) and fields and all(isinstance(x, str) and x.isidentifier() for x in fields):
+                return F.sym("recordtype:" + ",".join(fields))
+            return NotImplemented
+        if isinstance(func, ast.Name) and not any(isinstance(a, ast.Starred) for a in node.args) and not any(k.arg is None for k in node.keywords):
+            tv = ev.env.get(func.id) if func.id in ev.env else (ev.ev(func) if ev.module_consts and func.id in ev.module_consts else None)
+            tn = sym_name(tv) if _plain(tv) else None
+            if tn is not None and tn.startswith("recordtype:"):
+                fields = tn[len("recordtype:"):].split(",")
+                vals = dict(zip(fields, [ev.ev(a) for a in node.args]))
+                for k in node.keywords:
+                    vals[k.arg] = ev.ev(k.value)
+                if len(node.args) > len(fields) or set(vals) != set(fields):
+                    return Unknown(f"record built with the wrong fields (line {node.lineno})")
+                return make_record([(k, vals[k]) for k in fields], ordered=True)
+        if name in ("functools.partial", "partial") and node.args and not any(isinstance(a, ast.Starred) for a in node.args) \
+                and not any(k.arg is None for k in node.keywords):
+            # partial(f, a, k=v) is `lambda: f(a, k=v)` (for the calls without further arguments made here)
+            body = ast.Call(func=node.args[0], args=list(node.args[1:]), keywords=list(node.keywords))
+            lam = ast.Lambda(args=ast.arguments(posonlyargs=[], args=[], vararg=None, kwonlyargs=[], kw_defaults=[], kwarg=None, defaults=[]), body=body)
+            for x in ast.walk(lam):
+                if not hasattr(x, "lineno"):
+                    ast.copy_location(x, node)
+            return ev.ev(ast.fix_missing_locations(ast.copy_location(lam, node)))
+        if name == "map" and len(node.args) >= 2 and not node.keywords and not any(isinstance(a, ast.Starred) for a in node.args):
+            seqs = [ev.ev(a) for a in node.args[1:]]
+            if all(isinstance(q, tuple) for q in seqs):
+                return tuple(self._tmp_call(node.args[0], list(xs), node) for xs in zip(*seqs))
+            return self._opaque(name, None, [ev.ev(node.args[0])] + seqs, {}, node)
+        return NotImplemented
+
     def call(self, node, ev):
         func = node.func
         name = dotted(func)
+        r = self._object_call(node, ev)
+        if r is not NotImplemented:
+            return r
         recv = None
         meth = None
         if isinstance(func, ast.Attribute):
             # the receiver is evaluated once (it may itself be a call that reads)
             recv = ev.ev(func.value)
             meth = func.attr
+            if meth in _MUTATORS and isinstance(func.value, (ast.Name, ast.Attribute)) and isinstance(recv, (tuple, DictValue)):
+                # a literal list / table that is modified in place is no longer the literal it was written as
+                d = dotted(func.value)
+                if d in ev.env and d not in self.pinned:
+                    ev.env[d] = F.sym(f"filled:{d}@{getattr(func.value, 'lineno', 0)}")
         elif isinstance(func, ast.Name) and func.id in ev.env and func.id not in ev.buffers:
             # a local that holds a bound method or a function
             fv = ev.env[func.id]
@@ -2053,6 +2850,8 @@ class Walker:
                 fmt, data = F.fn("structof", need(structobj)) if structobj is not None and not is_unknown(structobj) else Unknown("struct object"), pos[0]
             if is_unknown(data) or isinstance(data, tuple):
                 return data if is_unknown(data) else Unknown("unpack of a tuple")
+            if _plain(fmt):
+                fmt = canon_format(fmt)
             self.events.append(("unpack", fmt, data, node))
             return F.fn("dec", need(data))
         # ---- functions of the same class / module that are followed
@@ -2077,6 +2876,27 @@ class Walker:
     def _opaque(self, name, recv, pos, kws, node):
         func = node.func
         plain = lambda v: v is not None and not is_unknown(v) and not isinstance(v, tuple)   # noqa
+        # ---- operations on values that are known: computed
+        kn = list(kws)
+        if isinstance(func, ast.Attribute) and recv is not None and not is_unknown(recv) and not any(is_unknown(v) for v in list(pos) + list(kws.values())):
+            r = split_fold([recv] + list(pos) + [kws[k] for k in kn],
+                           lambda vs: K.fold_method(vs[0], func.attr, vs[1:1 + len(pos)], dict(zip(kn, vs[1 + len(pos):]))))
+            if r is not None:
+                return r
+        if name is not None and name not in self.ev.env and name.split(".")[0] not in self.ev.env and name in K.BUILTINS \
+                and not any(is_unknown(v) for v in list(pos) + list(kws.values())):
+            r = split_fold(list(pos) + [kws[k] for k in kn], lambda vs: K.fold_builtin(name, vs[:len(pos)], dict(zip(kn, vs[len(pos):]))))
+            if r is not None:
+                return r
+        if name == "enumerate" and pos and isinstance(pos[0], tuple) and not any(is_unknown(x) for x in pos[1:]):
+            start = K.conc(pos[1]) if len(pos) > 1 else K.conc(kws.get("start", ZERO))
+            if isinstance(start, int):
+                return tuple((F.const(start + i), x) for i, x in enumerate(pos[0]))
+        if name == "reversed" and len(pos) == 1 and isinstance(pos[0], tuple):
+            return tuple(reversed(pos[0]))
+        if name in ("iter",) and len(pos) == 1 and isinstance(pos[0], tuple):
+            return pos[0]
+        pos = [F.sym("dict:" + repr(sorted(v.d.items(), key=repr))) if isinstance(v, DictValue) else v for v in pos]
         if name == "slice" and 1 <= len(pos) <= 3 and not kws and all(plain(v) for v in pos):
             a = [None if v.equals(NONE) else v for v in pos]
             return make_slice(*((None, a[0]) if len(a) == 1 else a))
@@ -2224,6 +3044,7 @@ def _method_table(ctx, rel, cls):
 
 
 _FILE_METHODS = {"read", "seek", "readline", "readlines"}
+_MUTATORS = frozenset({"append", "extend", "insert", "pop", "remove", "sort", "reverse", "clear", "add", "update", "setdefault", "popitem", "discard"})
 
 
 def _file_effects(table):
@@ -2254,6 +3075,19 @@ def _file_effects(table):
 
 def _own_level(st):
     """nodes of a statement that belong to the enclosing loop: nested loops and function definitions are not entered"""
+    if isinstance(st, (ast.While, ast.For, ast.AsyncFor)):
+        # a loop that is itself a statement of the enclosing loop's body: its `break` / `continue` are its own
+        yield st
+        for x in ast.walk(st):
+            if isinstance(x, (ast.Return, ast.Raise)):
+                yield x
+        for y in st.orelse:             # (the `else` of a loop is not part of its body)
+            for x in _own_level(y):
+                if not isinstance(x, (ast.Return, ast.Raise)):
+                    yield x
+        return
+    if isinstance(st, (ast.FunctionDef, ast.AsyncFunctionDef, ast.ClassDef)):
+        return
     stack = [st]
     while stack:
         n = stack.pop()
@@ -2267,6 +3101,58 @@ def _own_level(st):
                             yield x
                 continue
             stack.append(ch)
+
+
+def _own_function_nodes(st):
+    """the nodes of a statement that belong to the function it is written in (nested functions, lambdas and classes are not entered)"""
+    stack = [st]
+    while stack:
+        n = stack.pop()
+        yield n
+        for ch in ast.iter_child_nodes(n):
+            if not isinstance(ch, (ast.FunctionDef, ast.AsyncFunctionDef, ast.Lambda, ast.ClassDef)):
+                stack.append(ch)
+
+
+def _none_narrowing(test):
+    """a test that tells whether a local is None: -> (name, True when the local is not None on the true arm) else None"""
+    neg = False
+    while isinstance(test, ast.UnaryOp) and isinstance(test.op, ast.Not):
+        test, neg = test.operand, not neg
+    if isinstance(test, ast.Compare) and len(test.ops) == 1 and isinstance(test.comparators[0], ast.Constant) and test.comparators[0].value is None \
+            and isinstance(test.ops[0], (ast.Is, ast.IsNot, ast.Eq, ast.NotEq)) and isinstance(test.left, (ast.Name, ast.Attribute)):
+        nm = dotted(test.left)
+        return (nm, isinstance(test.ops[0], (ast.IsNot, ast.NotEq)) != neg) if nm else None
+    if isinstance(test, (ast.Name, ast.Attribute)):
+        nm = dotted(test)
+        return (nm, not neg) if nm else None
+    return None
+
+
+def _fold_continue(body):
+    """`if c: A; continue` followed by R  ==  `if c: A  else: R` (and the mirrored form); a `continue` that ends the body is dropped.
+    -> the new body, or None when nothing changed"""
+    changed = False
+    body = list(body)
+    if body and isinstance(body[-1], ast.Continue):
+        body, changed = body[:-1], True
+    for i, x in enumerate(body):
+        if not isinstance(x, ast.If):
+            continue
+        rest = body[i + 1:]
+        new = None
+        if x.body and isinstance(x.body[-1], ast.Continue) and not _always_exits(x.orelse):
+            new = ast.If(test=x.test, body=list(x.body[:-1]) or [ast.copy_location(ast.Pass(), x)], orelse=list(x.orelse) + rest)
+        elif x.orelse and isinstance(x.orelse[-1], ast.Continue) and not _always_exits(x.body):
+            new = ast.If(test=x.test, body=list(x.body) + rest, orelse=list(x.orelse[:-1]))
+        if new is not None:
+            ast.copy_location(new, x)
+            for arm in ("body", "orelse"):
+                sub = _fold_continue(getattr(new, arm))
+                if sub is not None:
+                    setattr(new, arm, sub or ([ast.copy_location(ast.Pass(), x)] if arm == "body" else []))
+            return body[:i] + [new]
+    return body if changed else None
 
 
 def _loop_exits(body):
@@ -2317,8 +3203,8 @@ def _is_simple(f):
             elif isinstance(st, ast.If):
                 if not ok(st.body) or not ok(st.orelse):
                     return False
-            elif isinstance(st, (ast.Return, ast.Pass)):
-                continue
+            elif isinstance(st, (ast.Return, ast.Pass, ast.Raise, ast.Assert)):
+                continue            # (a path that rejects its arguments returns nothing)
             else:
                 return False
         return True
